@@ -496,4 +496,144 @@ Section SweeperTheorems.
     - rewrite H. ring.
   Qed.
 
+  (* ================================================================ multi_implicit *)
+  Notation mi_loop := (mi_loop kadd kmul ksub dt t0 nodes solve feval).
+
+  Definition mi_rhs1 (Q1 : nat -> nat -> K) (g : nat -> V) (fn : nat -> nat -> V) (m : nat) : V :=
+    accum kadd (g m) 1 (m - 1) (fun j => vscale kmul (dt *! Q1 m j) (fn j 0)).
+  Definition mi_u1 (Q1 : nat -> nat -> K) (g : nat -> V) (fn : nat -> nat -> V) (uold : nat -> V) (m : nat) : V :=
+    solve 0 (mi_rhs1 Q1 g fn m) (dt *! Q1 m m) (uold m) (tn m).
+  Definition mi_rhs2 (Q1 Q2 : nat -> nat -> K) (g q2 : nat -> V) (fn : nat -> nat -> V) (uold : nat -> V) (m : nat) : V :=
+    accum kadd (vsub ksub (mi_u1 Q1 g fn uold m) (q2 m)) 1 (m - 1) (fun j => vscale kmul (dt *! Q2 m j) (fn j 1)).
+
+  (* law-free characterisation of the two-solve node loop *)
+  Lemma mi_loop_spec Q1 Q2 (g q2 : nat -> V) : forall n k (u' : nat -> V) (f' : nat -> nat -> V),
+    1 <= k ->
+    let r := mi_loop Q1 Q2 g q2 (seq k n) (u', f') in
+    (forall j, j < k \/ k + n <= j -> fst r j = u' j /\ snd r j = f' j) /\
+    (forall m, k <= m < k + n ->
+       snd r m = feval (tn m) (fst r m) /\
+       fst r m = solve 1 (mi_rhs2 Q1 Q2 g q2 (snd r) u' m) (dt *! Q2 m m) (mi_u1 Q1 g (snd r) u' m) (tn m)).
+  Proof.
+    induction n as [|n IH]; intros k u' f' Hk; cbn [seq Sweep.mi_loop].
+    - cbn [fst snd]. split; [intros; split; reflexivity | intros m Hm; lia].
+    - set (rhs1 := accum kadd (g k) 1 (k - 1) (fun j => vscale kmul (dt *! Q1 k j) (f' j 0))).
+      set (u1 := solve 0 rhs1 (dt *! Q1 k k) (u' k) (tn k)).
+      set (rhs2 := accum kadd (vsub ksub u1 (q2 k)) 1 (k - 1) (fun j => vscale kmul (dt *! Q2 k j) (f' j 1))).
+      set (u2 := solve 1 rhs2 (dt *! Q2 k k) u1 (tn k)).
+      specialize (IH (S k) (upd u' k u2) (upd f' k (feval (tn k) u2)) ltac:(lia)).
+      cbv zeta in IH. destruct IH as [IHf IHn].
+      set (r := mi_loop Q1 Q2 g q2 (seq (S k) n) (upd u' k u2, upd f' k (feval (tn k) u2))) in *.
+      assert (Hpre : forall j, 1 <= j < 1 + (k - 1) -> snd r j = f' j).
+      { intros j Hj. destruct (IHf j ltac:(lia)) as [_ E]. rewrite E. apply upd_other. lia. }
+      assert (E1 : mi_rhs1 Q1 g (snd r) k = rhs1).
+      { unfold mi_rhs1, rhs1. apply (accum_ext kadd). intros j Hj. rewrite (Hpre j Hj). reflexivity. }
+      assert (Eu1 : mi_u1 Q1 g (snd r) u' k = u1).
+      { unfold mi_u1. rewrite E1. reflexivity. }
+      assert (E2 : mi_rhs2 Q1 Q2 g q2 (snd r) u' k = rhs2).
+      { unfold mi_rhs2, rhs2. rewrite Eu1. apply (accum_ext kadd). intros j Hj. rewrite (Hpre j Hj). reflexivity. }
+      split.
+      + intros j Hj. destruct (IHf j ltac:(lia)) as [Ea Eb]. rewrite Ea, Eb, !upd_other by lia. split; reflexivity.
+      + intros m Hm. destruct (Nat.eq_dec m k) as [->|Hne].
+        * destruct (IHf k ltac:(lia)) as [Ea Eb]. rewrite Ea, Eb, !upd_same. split; [reflexivity|].
+          rewrite E2, Eu1. reflexivity.
+        * destruct (IHn m ltac:(lia)) as [Ea Eb]. split; [exact Ea|].
+          rewrite Eb. unfold mi_rhs2, mi_u1, mi_rhs1. rewrite upd_other by lia. reflexivity.
+  Qed.
+
+  (* multi_implicit.update_nodes: two successive implicit solves per node.  With u* the first-stage value,
+       u*_m - dt Q1[m,m] f1(u*_m) - dt sum_{j<m} Q1[m,j] f1(U_new_j) = u0 + dt sum_j (Q - Q1)[m,j] f1(U_old_j) + dt sum_j Q[m,j] f2(U_old_j) + tau_m
+       U_new_m - dt sum_{j<=m} Q2[m,j] f2(U_new_j) = u*_m - dt sum_j Q2[m,j] f2(U_old_j)                                           *)
+  Theorem mi_sweep_two_stage_form Q1 Q2 u f tau :
+    solver_contract 0 -> solver_contract 1 ->
+    let r := mi_update kO kadd kmul ksub M dt t0 nodes Q solve feval Q1 Q2 u f tau in
+    (forall j, j = 0 \/ M < j -> fst r j = u j /\ snd r j = f j) /\
+    forall m, 1 <= m <= M ->
+      snd r m = feval (tn m) (fst r m) /\
+      exists ustar : V, forall x,
+        ustar x -! dt *! Q1 m m *! feval (tn m) ustar 0 x -! dt *! sumf (fun j => Q1 m j *! snd r j 0 x) 1 (m - 1)
+        = u 0 x +! dt *! sumf (fun j => (Q m j -! Q1 m j) *! f j 0 x) 1 M
+                +! dt *! sumf (fun j => Q m j *! f j 1 x) 1 M +! tauval tau m x
+        /\
+        fst r m x -! dt *! sumf (fun j => Q2 m j *! snd r j 1 x) 1 m
+        = ustar x -! dt *! sumf (fun j => Q2 m j *! f j 1 x) 1 M.
+  Proof.
+    intros Hc0 Hc1 r. unfold mi_update in r.
+    pose proof (mi_loop_spec Q1 Q2 (mi_gather kO kadd kmul ksub M dt Q Q1 (u 0) f tau) (mi_Q2int kO kadd kmul M dt Q2 f)
+                  M 1 u f (le_n 1)) as S.
+    cbv zeta in S. fold r in S. destruct S as [Sf Sn].
+    split; [intros j Hj; apply Sf; lia|].
+    intros m Hm. destruct (Sn m ltac:(lia)) as [E1 E2]. split; [exact E1|].
+    set (g := mi_gather kO kadd kmul ksub M dt Q Q1 (u 0) f tau) in *.
+    set (q2 := mi_Q2int kO kadd kmul M dt Q2 f) in *.
+    exists (mi_u1 Q1 g (snd r) u m). intros x. split.
+    - (* first stage *)
+      unfold mi_u1 at 1 2. rewrite Hc0. unfold mi_rhs1.
+      rewrite (accum_spec kO kI kadd kmul ksub kopp Rth). unfold vscale.
+      unfold g, mi_gather, tauval. 
+      assert (G : forall tm : option V,
+                 (match tm with Some t => vadd kadd (vadd kadd (accum_sub ksub (integrate kO kadd kmul M dt Q 2 f m) 1 M
+                                     (fun j => vscale kmul (dt *! Q1 m j) (f j 0))) (u 0)) t
+                  | None => vadd kadd (accum_sub ksub (integrate kO kadd kmul M dt Q 2 f m) 1 M
+                                     (fun j => vscale kmul (dt *! Q1 m j) (f j 0))) (u 0) end) x
+                 = dt *! sumf (fun j => Q m j *! f j 0 x) 1 M +! dt *! sumf (fun j => Q m j *! f j 1 x) 1 M
+                   -! dt *! sumf (fun j => Q1 m j *! f j 0 x) 1 M +! u 0 x
+                   +! match tm with Some t => t x | None => kO end).
+      { intros tm. destruct tm as [t|]; unfold vadd; rewrite (accum_sub_spec kO kI kadd kmul ksub kopp Rth);
+          rewrite integrate_is_dtQF; unfold vscale; cbn [ftot]; unfold vadd, vzero.
+        - rewrite (sumf_ext kO kadd (fun j => Q m j *! (kO +! f j 0 x +! f j 1 x)) (fun j => Q m j *! f j 0 x +! Q m j *! f j 1 x) 1 M) by (intros; ring).
+          rewrite (sumf_add kO kI kadd kmul ksub kopp Rth).
+          rewrite (sumf_ext kO kadd (fun j => dt *! Q1 m j *! f j 0 x) (fun j => dt *! (Q1 m j *! f j 0 x)) 1 M) by (intros; ring).
+          rewrite (sumf_scal kO kI kadd kmul ksub kopp Rth). ring.
+        - rewrite (sumf_ext kO kadd (fun j => Q m j *! (kO +! f j 0 x +! f j 1 x)) (fun j => Q m j *! f j 0 x +! Q m j *! f j 1 x) 1 M) by (intros; ring).
+          rewrite (sumf_add kO kI kadd kmul ksub kopp Rth).
+          rewrite (sumf_ext kO kadd (fun j => dt *! Q1 m j *! f j 0 x) (fun j => dt *! (Q1 m j *! f j 0 x)) 1 M) by (intros; ring).
+          rewrite (sumf_scal kO kI kadd kmul ksub kopp Rth). ring. }
+      rewrite G.
+      rewrite (sumf_ext kO kadd (fun j => dt *! Q1 m j *! snd r j 0 x) (fun j => dt *! (Q1 m j *! snd r j 0 x)) 1 (m - 1)) by (intros; ring).
+      rewrite (sumf_scal kO kI kadd kmul ksub kopp Rth). rewrite L5. ring.
+    - (* second stage *)
+      rewrite (sumf_last (fun j => Q2 m j *! snd r j 1 x) m) by lia.
+      assert (H2 : fst r m x -! dt *! Q2 m m *! snd r m 1 x = mi_rhs2 Q1 Q2 g q2 (snd r) u m x).
+      { rewrite E1. remember (mi_rhs2 Q1 Q2 g q2 (snd r) u m) as R2 eqn:HR2.
+        remember (mi_u1 Q1 g (snd r) u m) as U1 eqn:HU1. rewrite E2. apply Hc1. }
+      unfold mi_rhs2 in H2. rewrite (accum_spec kO kI kadd kmul ksub kopp Rth) in H2. unfold vsub, vscale in H2.
+      unfold q2, mi_Q2int in H2. rewrite (accum_spec kO kI kadd kmul ksub kopp Rth) in H2. unfold vzero, vscale in H2.
+      rewrite (sumf_ext kO kadd (fun j => dt *! Q2 m j *! f j 1 x) (fun j => dt *! (Q2 m j *! f j 1 x)) 1 M) in H2 by (intros; ring).
+      rewrite (sumf_ext kO kadd (fun j => dt *! Q2 m j *! snd r j 1 x) (fun j => dt *! (Q2 m j *! snd r j 1 x)) 1 (m - 1)) in H2 by (intros; ring).
+      rewrite !(sumf_scal kO kI kadd kmul ksub kopp Rth) in H2.
+      transitivity ((fst r m x -! dt *! Q2 m m *! snd r m 1 x) -! dt *! sumf (fun j => Q2 m j *! snd r j 1 x) 1 (m - 1)); [ring|].
+      rewrite H2. ring.
+  Qed.
+
+  (* ================================================================ Runge-Kutta sweepers: stage form *)
+  Theorem rk_stage_form (A : nat -> nat -> K) u f :
+    solver_contract 0 ->
+    let r := rk_update kO kadd kmul keqb M dt t0 nodes solve feval 1 (fun _ => A) u f in
+    (forall j, j = 0 \/ M < j -> fst r j = u j /\ snd r j = f j) /\
+    forall m, 1 <= m <= M ->
+      snd r m = feval (tn m) (fst r m) /\
+      forall x, fst r m x -! dt *! sumf (fun j => A m j *! snd r j 0 x) 1 m = u 0 x.
+  Proof.
+    intros Hc r. unfold rk_update in r.
+    pose proof (sweep_loop_spec kO kadd kmul dt t0 nodes 1 feval (fun _ => A)
+                  (rk_node_solve kO kadd kmul keqb dt t0 nodes solve A) 1 (fun _ => u 0) M 1 u f (le_n 1)) as S.
+    cbv zeta in S. fold r in S. destruct S as [Sf Sn].
+    split; [intros j Hj; apply Sf; lia|].
+    intros m Hm. destruct (Sn m ltac:(lia)) as [E1 E2]. split; [exact E1|]. intros x.
+    assert (Hnode : fst r m x -! (dt *! A m m) *! snd r m 0 x
+                    = accum kadd (u 0) 1 (m - 1) (dqd_term kO kadd kmul dt 1 (fun _ => A) (snd r) m) x).
+    { rewrite E1.
+      remember (accum kadd (u 0) 1 (m - 1) (dqd_term kO kadd kmul dt 1 (fun _ => A) (snd r) m)) as R eqn:HR.
+      rewrite E2. unfold rk_node_solve.
+      destruct (keqb (A m m) kO) eqn:Eb.
+      - apply keqb_true in Eb. rewrite Eb. ring.
+      - apply Hc. }
+    rewrite (accum_spec kO kI kadd kmul ksub kopp Rth) in Hnode. unfold Sweep.dqd_term, vscale in Hnode.
+    simpl in Hnode. unfold vadd, vzero, vscale in Hnode. rewrite L1 in Hnode.
+    rewrite (sumf_last (fun j => A m j *! snd r j 0 x) m) by lia.
+    transitivity ((fst r m x -! dt *! A m m *! snd r m 0 x) -! dt *! sumf (fun j => A m j *! snd r j 0 x) 1 (m - 1)); [ring|].
+    rewrite Hnode. ring.
+  Qed.
+
 End SweeperTheorems.
